@@ -11,8 +11,7 @@ EXPLANATION = ('Ray directions are unit vectors given by a rational (stereograph
                'reflected directions have unit length, reflection mirrors about the normalised gradient, refraction satisfies n (S x N) = n\' (S\' x N) '
                'and S\' lies in the plane of incidence; the normal is the true gradient of the sag (engine derivative); the normal is finite on axis; '
                'frame transforms are exact rigid motions.')
-BOUNDS = {'quick': 'single rays and batches of 2 rays; conic / sphere / plane surfaces; rotation matrices from three symbolic Euler angles; '
-                   'raytrace through 6 prescriptions of 2-3 tilted/decentred planes (mirror, refracting, non-bending; symbolic tilt, decentre, spacing, ray)',
+BOUNDS = {'quick': 'single rays and batches of 2 rays; conic / sphere / plane surfaces; rotation matrices from three symbolic Euler angles; raytrace through 6 prescriptions of 2-3 tilted/decentred planes (mirror, refracting, non-bending; symbolic tilt, decentre, spacing, ray); off-axis conic normals (dx and dy variants); surface constructors carry position and tilt',
           'thorough': 'same, 10 prescriptions'}
 OUTSIDE = ('that the Newton-Raphson loop converges onto the surface (float-tolerance termination after a data-dependent number of iterations: no '
            'bounded unrolling is meaningful for symbolic rays; for planes the first step is exact and the traced prescriptions use planes only), multi-surface '
